@@ -73,10 +73,75 @@ func smtTextFiltered(o *Obligation) (string, bool) {
 			break
 		}
 	}
+	// heap arrays and spec functions the goal depends on, closed under the
+	// assertions that mention one of them (array symbols only: two facts about
+	// different fields of the same object are unrelated)
+	isArr := func(s string) bool {
+		return strings.HasPrefix(s, "H") || strings.HasPrefix(s, "sf.")
+	}
+	arrCone := map[string]bool{}
+	for s := range goalSyms {
+		if isArr(s) {
+			arrCone[s] = true
+		}
+	}
+	lineArrs := make([]map[string]bool, len(o.Lines))
+	for i, l := range o.Lines {
+		if !strings.HasPrefix(l, "(assert ") && !strings.HasPrefix(l, "(define-fun ") {
+			continue
+		}
+		syms := map[string]bool{}
+		symbolsOf(l, syms)
+		m := map[string]bool{}
+		for s := range syms {
+			if isArr(s) {
+				m[s] = true
+			}
+		}
+		lineArrs[i] = m
+	}
+	for round := 0; round < 8; round++ {
+		grew := false
+		for _, m := range lineArrs {
+			hit := false
+			for s := range m {
+				if arrCone[s] {
+					hit = true
+					break
+				}
+			}
+			if !hit {
+				continue
+			}
+			for s := range m {
+				if !arrCone[s] {
+					arrCone[s] = true
+					grew = true
+				}
+			}
+		}
+		if !grew {
+			break
+		}
+	}
 	dropped := false
 	var b strings.Builder
 	b.WriteString("(set-logic ALL)\n")
-	for _, l := range o.Lines {
+	for i, l := range o.Lines {
+		if strings.HasPrefix(l, "(assert ") && !strings.HasPrefix(l, "(assert (forall") && len(lineArrs[i]) > 0 {
+			// a ground fact about heap arrays none of which the goal can depend on
+			rel := false
+			for s := range lineArrs[i] {
+				if arrCone[s] {
+					rel = true
+					break
+				}
+			}
+			if !rel {
+				dropped = true
+				continue
+			}
+		}
 		if strings.HasPrefix(l, "(assert (forall") || strings.HasPrefix(l, "(assert (or (and (= now.join") {
 			syms := map[string]bool{}
 			symbolsOf(l, syms)
